@@ -3,20 +3,22 @@
 
 INVS = ("INVARIANTS TypeOK AtMostOneReply OneReplyWhenDone InTime WalkOnce SendBound TcpOnlyAfterTruncation\n"
         "  ReplyIsAnswerOrServfail NoMismatchRelayed RelayIsFromContacted DebitBeforeSend WithinBudget WorkFailIffLatched\n"
-        "  GuardRespected FailoverOnlyOnServfail FallbackUntouchedUnlessEngaged LocalFailureMarked\n")
+        "  GuardRespected FailoverOnlyOnServfail FallbackUntouchedUnlessEngaged LocalFailureMarked\n"
+        "  OverBudgetReplyIsWorkFail NoTrafficAfterPrimaryRejection PreworkOnlyBitesInEnforce ReplyEchoesClientId\n")
 
 
 def cfg(name, nf, nb, faults, modes, caps, maxpre, ticks, spec="Spec", props=(), debit=True, match=True, stop=True,
-        view=True, t=2, qt=5, focap=20, sim=False, stream=False):
+        view=True, t=2, qt=5, focap=20, sim=False, stream=False, works="NoWork", latchguard=True, stamp=True, invs=None):
     b = lambda x: "TRUE" if x else "FALSE"
     s = ("CONSTANTS\n  NF = %d  NB = %d\n  Faults <- %s\n  Modes <- %s\n  Caps <- %s\n  MaxPre = %d\n"
-         "  T = %d  QT = %d  FoCap = %d\n  Ticks = %s  FwdStream = %s\n"
-         "  DebitFirst = %s  CheckMatch = %s  StopAtDeadline = %s\n") % (
-        nf, nb, faults, modes, caps, maxpre, t, qt, focap, b(ticks), b(stream), b(debit), b(match), b(stop))
+         "  T = %d  QT = %d  FoCap = %d\n  Ticks = %s  FwdStream = %s\n  PreWorks <- %s\n"
+         "  DebitFirst = %s  CheckMatch = %s  StopAtDeadline = %s  LatchGuard = %s  StampFirst = %s\n") % (
+        nf, nb, faults, modes, caps, maxpre, t, qt, focap, b(ticks), b(stream), works, b(debit), b(match), b(stop),
+        b(latchguard), b(stamp))
     if sim:
         s += "INIT Init\nNEXT SimNext\n"
     else:
-        s += "SPECIFICATION %s\n" % spec + INVS
+        s += "SPECIFICATION %s\n" % spec + (INVS if invs is None else "INVARIANTS %s\n" % invs)
         s += "PROPERTIES %s\n" % " ".join(["SendAfterDebit"] + list(props))
         if view:
             s += "VIEW View\n"
@@ -41,7 +43,16 @@ cfg("MC_Graph_F2B1.cfg", 2, 1, "ClassFaults", "Enforce", "Caps3", 0, False)
 cfg("MC_NegNoDebit.cfg", 2, 1, "ClassFaults", "Enforce", "Caps2", 0, False, debit=False)
 cfg("MC_NegNoMatch.cfg", 2, 1, "ClassFaults", "Enforce", "Caps2", 0, False, match=False)
 cfg("MC_NegNoDeadline.cfg", 2, 1, "ClassFaults", "Enforce", "Caps135", 0, False, stop=False)
+# the primary resolution rejected on a non-outbound budget (one aggregate network kind, one aggregate DNSSEC kind, one
+# per-object kind; the model treats all kinds alike), two fallbacks behind one forwarder, the clock ticking
+cfg("MC_F1B2_work.cfg", 1, 2, "ClassFaults", "AllModes", "Caps13", 0, True, works="SomeWorks")
+cfg("MC_F1B2_work_q.cfg", 1, 2, "ClassFaults", "AllModes", "Caps13", 0, False, works="SomeWorks")
+# ... and the two guards of failover whose absence only shows there / when every fallback fails too
+cfg("MC_NegNoLatchGuard.cfg", 1, 2, "ClassFaults", "Enforce", "Caps3", 0, False, works="SomeWorks", latchguard=False,
+    invs="TypeOK OverBudgetReplyIsWorkFail")
+cfg("MC_NegLateStamp.cfg", 1, 2, "ClassFaults", "Enforce", "Caps3", 0, False, stamp=False, invs="TypeOK ReplyEchoesClientId")
 # -simulate
+cfg("Sim_F2B2_work.cfg", 2, 2, "NamedFaults", "AllModes", "Caps1236", 0, False, sim=True, works="AllWorks")
 cfg("Sim_F3B2.cfg", 3, 2, "NamedFaults", "AllModes", "Caps1236", 2, False, sim=True)
 cfg("Sim_F2B0.cfg", 2, 0, "NamedFaults", "AllModes", "Caps13", 1, False, sim=True)
 cfg("Sim_F1B1.cfg", 1, 1, "NamedFaults", "AllModes", "Caps13", 1, False, sim=True)
